@@ -562,6 +562,12 @@ func (it *Interp) Assert(label string, c *smt.Term) {
 		as = append(as, it.P.Exact...)
 		r, err = it.S.Check(as, it.Cfg.AssertTimeout)
 	}
+	if d := os.Getenv("SYMGO_DUMP_ASSERT"); d != "" && d == label && (err != nil || r != smt.Unsat) {
+		old := smt.MaxPrintDepth
+		smt.MaxPrintDepth = 60
+		os.WriteFile("/tmp/assert_"+label+".txt", []byte(it.C.String(c)), 0o644)
+		smt.MaxPrintDepth = old
+	}
 	switch {
 	case err != nil || r == smt.Unknown:
 		it.jr.Inconclusive = append(it.jr.Inconclusive, fmt.Sprintf("assert %s: solver %v %v", label, r, err))
@@ -609,9 +615,31 @@ func (it *Interp) Reach(label string, c *smt.Term) {
 	if c.IsFalse() {
 		return
 	}
+	if env := it.sampleWitness(c); env != nil {
+		// a concrete witness found by sampling: no solver call needed
+		tape := make([]TapeEntry, len(it.P.Nondets))
+		for i, n := range it.P.Nondets {
+			v := big.NewInt(0)
+			if cv, ok := env[n.T]; ok && cv != nil && cv.IsConst() {
+				v = cv.Val
+			}
+			tape[i] = TapeEntry{Label: n.Label, Kind: n.Kind, Value: v.String()}
+		}
+		it.jr.Reached[label] = true
+		it.jr.Witness[label] = tape
+		if it.jr.WitnessCase == nil {
+			it.jr.WitnessCase = map[string]int{}
+		}
+		it.jr.WitnessCase[label] = it.caseN
+		return
+	}
 	as := append(append([]*smt.Term{}, it.P.PC...), c)
 	as = append(as, it.P.Exact...)
-	r, err := it.S.Check(as, it.Cfg.AssertTimeout)
+	to := it.Cfg.AssertTimeout
+	if to < 120_000 {
+		to = 120_000 // a witness is searched once per label: allow the solver more time than for obligations
+	}
+	r, err := it.S.Check(as, to)
 	if err != nil || r != smt.Sat {
 		return
 	}
